@@ -70,6 +70,8 @@ type UpObs struct {
 	Manifest [][]string `json:"manifest"` // instances with a document in the new revision's manifest
 	Hooks    [][]string `json:"hooks"`    // instances that contributed a hook
 	Stored   [][]string `json:"stored"`   // instances left in the chart stored with the new revision
+	Ran      [][]string `json:"ran"`      // instances whose pre-upgrade hook object was created in the cluster by this upgrade
+	RanPost  [][]string `json:"ranpost"`  // ... whose post-upgrade hook object was
 }
 
 const schemaErrPrefix = "values don't meet the specifications of the schema(s) in the following chart(s):"
@@ -339,51 +341,90 @@ func runC(c *Case, tmp string, o *Obs11) {
 		name           string
 		reuse, rtr, rs bool
 	}
+	upgrade := func(e *env, m mode, newVals func() (map[string]interface{}, error)) (u UpObs) {
+		u = UpObs{Mode: m.name, Manifest: [][]string{}, Hooks: [][]string{}, Stored: [][]string{}, Ran: [][]string{}, RanPost: [][]string{}}
+		defer catch(&u.Err)
+		nch, err := c.Load(BuildOpts{})
+		if err != nil {
+			u.Err = "load: " + err.Error()
+			return u
+		}
+		nv, err := newVals()
+		if err != nil {
+			u.Err = "values: " + err.Error()
+			return u
+		}
+		up := action.NewUpgrade(e.config())
+		up.Namespace = relNS
+		up.Timeout = 5 * time.Second
+		up.ReuseValues, up.ResetThenReuseValues, up.ResetValues = m.reuse, m.rtr, m.rs
+		mark := e.log.len()
+		nrel, err := up.Run(relName, nch, nv)
+		// whatever the outcome: which hook objects did the upgrade create in the cluster?
+		ran, ranpost := map[string]bool{}, map[string]bool{}
+		for _, r := range e.log.from(mark) {
+			if r.Method == "POST" && r.Status < 300 {
+				if inst, kind, ok := instOfHookObject(r.Name); ok {
+					if kind == "hook" {
+						ran[inst] = true
+					} else {
+						ranpost[inst] = true
+					}
+				}
+			}
+		}
+		u.Ran, u.RanPost = instList(ran), instList(ranpost)
+		if err != nil {
+			u.Err = err.Error()
+			u.Schema = strings.Contains(u.Err, schemaErrPrefix)
+			return u
+		}
+		u.Ok = true
+		u.Manifest = instList(manifestInsts(nrel.Manifest))
+		hooks := map[string]bool{}
+		for _, h := range nrel.Hooks {
+			if inst, _, ok := instOf(h.Path); ok {
+				hooks[inst] = true
+			}
+		}
+		u.Hooks = instList(hooks)
+		stored := map[string]bool{}
+		var walk func(prefix string, x *chart.Chart)
+		walk = func(prefix string, x *chart.Chart) {
+			stored[prefix] = true
+			for _, d := range x.Dependencies() {
+				p := d.Name()
+				if prefix != "" {
+					p = prefix + "/" + d.Name()
+				}
+				walk(p, d)
+			}
+		}
+		walk("", nrel.Chart)
+		u.Stored = instList(stored)
+		return u
+	}
+	none := func() (map[string]interface{}, error) { return map[string]interface{}{}, nil } // no values given
 	// the reset comes last: the other three leave the deployed user values in the record
 	for _, m := range []mode{{"upgrade", false, false, false}, {"upgrade-reuse", true, false, false},
 		{"upgrade-reset-then-reuse", false, true, false}, {"upgrade-reset", false, false, true}} {
-		u := UpObs{Mode: m.name, Manifest: [][]string{}, Hooks: [][]string{}, Stored: [][]string{}}
-		func() {
-			defer catch(&u.Err)
-			nch, err := c.Load(BuildOpts{})
-			if err != nil {
-				u.Err = "load: " + err.Error()
-				return
-			}
-			up := action.NewUpgrade(e.config())
-			up.Namespace = relNS
-			up.Timeout = 5 * time.Second
-			up.ReuseValues, up.ResetThenReuseValues, up.ResetValues = m.reuse, m.rtr, m.rs
-			nrel, err := up.Run(relName, nch, map[string]interface{}{}) // no values given
-			if err != nil {
-				u.Err = err.Error()
-				u.Schema = strings.Contains(u.Err, schemaErrPrefix)
-				return
-			}
-			u.Ok = true
-			u.Manifest = instList(manifestInsts(nrel.Manifest))
-			hooks := map[string]bool{}
-			for _, h := range nrel.Hooks {
-				if inst, _, ok := instOf(h.Path); ok {
-					hooks[inst] = true
-				}
-			}
-			u.Hooks = instList(hooks)
-			stored := map[string]bool{}
-			var walk func(prefix string, x *chart.Chart)
-			walk = func(prefix string, x *chart.Chart) {
-				stored[prefix] = true
-				for _, d := range x.Dependencies() {
-					p := d.Name()
-					if prefix != "" {
-						p = prefix + "/" + d.Name()
-					}
-					walk(p, d)
-				}
-			}
-			walk("", nrel.Chart)
-			u.Stored = instList(stored)
-		}()
-		o.Ups = append(o.Ups, u)
+		o.Ups = append(o.Ups, upgrade(e, m, none))
 	}
+	// the other way round: a release installed with the chart defaults only is upgraded WITH the case's values, so
+	// whatever those values switch on or off changes between the deployed and the new revision
+	func() {
+		u := UpObs{Mode: "upgrade-new", Manifest: [][]string{}, Hooks: [][]string{}, Stored: [][]string{}, Ran: [][]string{}, RanPost: [][]string{}}
+		e2 := newEnv()
+		ch0, err := c.Load(BuildOpts{})
+		if err == nil {
+			_, err = newInstall(e2.config(), false).Run(ch0, map[string]interface{}{})
+		}
+		if err != nil {
+			u.Err = "first install: " + err.Error()
+			u.Schema = strings.Contains(u.Err, schemaErrPrefix)
+			o.Ups = append(o.Ups, u)
+			return
+		}
+		o.Ups = append(o.Ups, upgrade(e2, mode{"upgrade-new", false, false, false}, func() (map[string]interface{}, error) { return c.UserValues(tmp) }))
+	}()
 }
